@@ -567,6 +567,33 @@ def check_cases(col):
                     col.violation('C10/check-accepts-invalid' if got.ok else 'C10/check-error-class',
                                   '%s on %r: a condition fails, expected CheckError, got %r' % (short(chk), target, got), wit)
     col.sample({'check_combinations_enumerated': n}, 'check')
+    # the conditions may be given as any container of types / values: one-element sets and frozensets, lists, dicts (their keys)
+    hashable_targets = [1, 0, 'a', 'ab', 1.0, True, None, (1,)]
+    kinds = [('type', {int}, lambda t: type(t) is int), ('type', [int, str], lambda t: type(t) in (int, str)), ('type', frozenset([str]), lambda t: type(t) is str),
+             ('instance_of', {int}, lambda t: isinstance(t, int)), ('instance_of', [int, str], lambda t: isinstance(t, (int, str))),
+             ('instance_of', frozenset([str, float]), lambda t: isinstance(t, (str, float))),
+             ('one_of', {1}, lambda t: t in {1}), ('one_of', frozenset(['a']), lambda t: t in {'a'}), ('one_of', {1: 'x'}, lambda t: t in {1: 'x'}),
+             ('one_of', [None], lambda t: t in [None]), ('one_of', {'a', 'ab'}, lambda t: t in {'a', 'ab'}), ('one_of', 'abc', lambda t: isinstance(t, str) and t in 'abc')]
+    for name, container, holds in kinds:
+        for dflt in (None, SENT):
+            kw = {name: container}
+            if dflt is not None:
+                kw['default'] = dflt
+            built = call(Check, **kw)
+            if not built.ok:
+                col.violation('C10/check-constructor', 'Check(%s) raised %r' % (short(kw), built.exc), None)
+                continue
+            for t in hashable_targets:
+                if name == 'one_of' and container == 'abc' and not isinstance(t, str):
+                    continue
+                want_ok = holds(t)
+                got = call(G, t, built.value)
+                col.count('check_evaluations')
+                col.case(('check-container-kinds', name, type(container).__name__, len(container), dflt is not None, type(t).__name__), True)
+                good = (got.ok and got.value is t) if want_ok else ((got.ok and got.value is dflt) if dflt is not None else (not got.ok and isinstance(got.exc, CheckError)))
+                if not good:
+                    col.violation('C10/check-condition-given-as-%s' % type(container).__name__, 'Check(%s) on %r: the condition %s, got %r'
+                                  % (short(kw), t, 'holds' if want_ok else 'fails (expected %s)' % ('the default' if dflt is not None else 'a CheckError'), got), None)
 
 
 def reflected_operands(col, rng):
